@@ -53,6 +53,13 @@ def gen_history(rng, n):
             ev.append(("statp", recs))
         elif r < 0.70:
             ev.append(("statp", [(rng.choice(hot), bytes([rng.randrange(256)]))]))      # the simulator's 1-byte form
+        elif r < 0.76:
+            # arrivals while a request is in flight: two partial updates at a hot position, then a refresh overlapping it
+            p = rng.choice(hot)
+            r1 = [(p, bytes([rng.randrange(256), rng.randrange(256)]))]
+            r2 = [(min(1021, p + 1), bytes([rng.randrange(256), rng.randrange(256)]))]
+            off = max(0, p - 1)
+            ev.append(("busy", r1, r2, off, bytes(rng.randrange(256) for _ in range(6))[:1024 - off]))
         else:
             p = rng.choice(hot)
             off = max(0, p - rng.randrange(0, 3))
@@ -97,8 +104,28 @@ class AsyncRig:
     def refresh(self, off, seg):
         self.spa.struct.replace_status_block_segment(off, seg)
 
+    async def busy_window(self, bodies, off, seg):
+        """the same arrivals while a request of the connection is IN FLIGHT (it holds the protocol lock until its reply comes):
+        two partial updates, then a refresh of an overlapping range, then the reply"""
+        from geckolib.driver import GeckoPingProtocolHandler
+        g = asyncio.ensure_future(self.proto.get(lambda: GeckoPingProtocolHandler.request(parms=SENDER), None, 1))
+        await asyncio.sleep(0.15)
+        for b in bodies:
+            self.proto.datagram_received(b"STATP" + b, SENDER)
+            await asyncio.sleep(0.25)
+        self.spa.struct.replace_status_block_segment(off, seg)
+        await asyncio.sleep(0.1)
+        self.proto.datagram_received(b"APING\x00", SENDER)
+        try:
+            await asyncio.wait_for(g, 10)
+        except Exception as e:  # noqa
+            return "err:request:" + type(e).__name__
+        await asyncio.sleep(0.4)
+        if self.task.done():
+            return "err:consumer-died:" + type(self.task.exception()).__name__
+
     def show(self):
-        acks = [_seq_byte(d) for (_, d, _) in self.tr.sent]
+        acks = [_seq_byte(d) for (_, d, _) in self.tr.sent if b"STATQ" in d]
         b = self.spa.struct.status_block
         return f"{checksum(b)} len={len(b)} pending={len(self.handler.changes)} acks={len(acks)} last={acks[-1][1] if acks else 0}", acks
 
@@ -145,7 +172,27 @@ def run_history(ctx, hist, block0, lines, impl_ans, label):
         ref = block0
         nstatp = 0
         for i, e in enumerate(hist):
-            if e[0] == "statp":
+            if e[0] == "busy":
+                b1, b2 = mk_statp(e[1]), mk_statp(e[2])
+                nstatp += 2
+                ref = ref_apply(ref_apply(ref, e[1]), e[2])
+                ref = ref[:e[3]] + e[4] + ref[e[3] + len(e[4]):]
+                err = await a.busy_window([b1, b2], e[3], e[4])
+                try:
+                    s.statp(b1)
+                    s.statp(b2)
+                    s.refresh(e[3], e[4])
+                except Exception as ex:  # noqa
+                    results["sync_exc"] = repr(ex)
+                # the model sees the three arrivals in order; only the last answer line is compared
+                for name in ("a", "s"):
+                    lines.append(f"{name} statp {hx(b1)}")
+                    impl_ans.append(None)
+                    lines.append(f"{name} statp {hx(b2)}")
+                    impl_ans.append(None)
+                op = f"refresh {e[3]} {hx(e[4])}"
+                ctx.hist("ops", "busy-window")
+            elif e[0] == "statp":
                 bodyb = mk_statp(e[1])
                 nstatp += 1
                 ref = ref_apply(ref, e[1])
@@ -190,6 +237,8 @@ def run_history(ctx, hist, block0, lines, impl_ans, label):
 
 
 def ev_json(ev):
+    if ev[0] == "busy":
+        return ["busy", mk_statp(ev[1]), mk_statp(ev[2]), ev[3], ev[4]]
     if ev[0] == "statp":
         return ["statp", mk_statp(ev[1])]
     return ["refresh", ev[1], ev[2]]
@@ -232,6 +281,8 @@ def run(ctx):
     if model is not None:
         nd = 0
         for i, (mo, im) in enumerate(zip(model, impl_ans)):
+            if im is None:          # an intermediate arrival of a busy window: only the state after the window is compared
+                continue
             if mo != im:
                 nd += 1
                 if nd <= 3:
